@@ -42,8 +42,22 @@ def generate(seed, tier):
         for i in range(g.rint(1, 4)):
             dests = [g.pick(PATTERNS + ["*.b.com", "b.*", "test1", "*.example.com"]) for _ in range(g.rint(1, 4))]
             entries.append((g.pick(["udp", "tcp", "tls"]), dests, "10.9.%d.1" % i + g.pick(["", ":6000"])))
-        lines += cfg_lines(g, entries, [g.pick(HOSTS + ["z.b.com", "b.a", "a.example.com", "test1", "q.example.com"]) for _ in range(8)])
+        hosts = [g.pick(HOSTS + ["z.b.com", "b.a", "a.example.com", "test1", "q.example.com"]) for _ in range(8)]
+        one = cfg_lines(g, entries, hosts)
+        lines += one
+        # the same configuration is turned into a table several more times (another start of the program, another
+        # listener of the service): the answers must be the same
+        for _ in range(g.pick([1, 1, 3, 8])):
+            lines += one
         g.count("config_built_tables")
+    # several wildcards that all match, built many times from one configuration
+    for _ in range(10 if tier == "quick" else 100):
+        entries = [("udp", ["*.example.com"], "10.9.0.1"), ("tcp", ["a.*"], "10.9.1.1"), ("udp", ["*"], "10.9.2.1")]
+        g.r.shuffle(entries)
+        one = cfg_lines(g, entries, ["a.example.com", "a.org", "q.example.com"])
+        for _ in range(12):
+            lines += one
+        g.count("config_rebuilt_12_times")
     maxn = 3 if tier == "quick" else 4
     pats = PATTERNS[:8] if tier == "quick" else PATTERNS
     n = 0
